@@ -149,12 +149,18 @@ class Catalog:
 
     def step_new_ktensor(self, g, shape, r, nonneg=False):
         lo = 0.05 if nonneg else -1.0
+        weights = [rnd(g, 0.5, 2.0) for _ in range(r)]
+        u = g.random()
+        if u < 0.12:
+            weights = [1.0] * r  # the default weights
+        elif u < 0.3 and not nonneg:
+            weights = [g.choice([1.0, -1.0]) for _ in range(r)]  # unit magnitude, mixed sign (what K1 - K2 produces)
         return {
             "op": "new_ktensor",
             "operands": [],
             "k": [],
             "shape": list(shape),
-            "weights": [rnd(g, 0.5, 2.0) for _ in range(r)],
+            "weights": weights,
             "factors": [enc(rand_array(g, (s, r), lo, 1.0)) for s in shape],
             "copy": g.random() < 0.7,
         }
